@@ -1,6 +1,6 @@
 SPECIFICATION Spec
 CONSTANTS
-  Loaders = {"l1", "l2"}
+  Loaders = {"l1"}
   RawReaders = {"r1"}
   Inits = {"absent", "good", "bad"}
   ExtBudget = 1
